@@ -13,7 +13,7 @@ case $V in
   asan) SAN="-fsanitize=address,undefined -fno-sanitize-recover=all -fno-omit-frame-pointer" ;;
   tsan) SAN="-fsanitize=thread" ;;
 esac
-if [ -n "$PV_COVERAGE" ]; then SAN="$SAN --coverage"; fi
+if [ -n "$PV_COVERAGE" ]; then SAN="$SAN --coverage -DPV_COVERAGE"; fi
 mkdir -p /verif/_work/bin
 g++ -std=c++11 -O1 -g -DPRIMITIV_VERIF_HOOKS $SAN -I$REPO -I$B -I/usr/include/eigen3 -I/verif/harness \
   /verif/harness/$N.cc -o $OUT -L$B/primitiv -lprimitiv -Wl,-rpath,$B/primitiv -lpthread "$@"
